@@ -753,7 +753,15 @@ gen_c04_scaled_fit (gen_t *g, rng_t *r, scenario_t *sc)
 	    /* NEAREST takes floor (x - 1/65536): the translation that puts sample positions
 	     * exactly on pixel boundaries, so that one of them lands exactly on the wrap point */
 	    a[7] = ((sx / 2) & 0xffff) == 0 ? 1 : ((sx / 2) & 0xffff) == 32768 ? 32769 : 1 + 65536 - ((sx / 2) & 0xffff);
-	    if (rng_chance (r, 1, 2)) f[4] = PIXMAN_FILTER_NEAREST;
+	    f[4] = PIXMAN_FILTER_NEAREST;
+	    if (rng_chance (r, 1, 2))
+	    {
+		/* BILINEAR looks at x - 1/2: the translation that gives samples a zero fraction, so that
+		 * one of them sits exactly on the last pixel (of the last row) with nothing to blend in */
+		f[4] = PIXMAN_FILTER_BILINEAR;
+		a[7] = (32768 + 65536 - ((sx / 2) & 0xffff)) & 0xffff;
+		if (rng_chance (r, 2, 3)) a[10] = (32768 + 65536 - ((sy / 2) & 0xffff)) & 0xffff;
+	    }
 	}
 	if (rng_chance (r, 1, 3)) { a[7] += (int64_t)rng_range (r, 0, SW) * 65536; }
 	sc_addv (sc, MOP_SET_TRANSFORM, 14, a);
